@@ -89,7 +89,28 @@ Theorem C04_list_append : forall H src e limit, basic_size e = None -> limit < 2
   exists n', list_append H src (TList e limit) n m = Ok n' /\ Repr H (TList e limit) (VSeq (vs ++ [x])) n'.
 Proof. exact list_append_v. Qed.
 
-(* any valid history of assignments and appends over VALUES ends in a representation of the implied
+Theorem C04_list_pop : forall H src e limit, basic_size e = None -> limit < 2 ^ 64 -> forall vs n,
+  Repr H (TList e limit) (VSeq vs) n -> lenN vs <= limit -> vs <> [] ->
+  exists n', list_pop H src (TList e limit) n = Ok n' /\ Repr H (TList e limit) (VSeq (removelast vs)) n'.
+Proof. exact list_pop_v. Qed.
+
+(* pop at tree level: clearing the last position and summarising the emptied subtree (the climb over
+   trailing zero bits of the index) leaves a representation of the list without its last element *)
+Theorem C04_tree_pop : forall H src e limit, basic_size e = None -> limit < 2 ^ 64 -> forall n ns,
+  Rep_list H e limit n ns -> ns <> [] ->
+  exists n', list_pop H src (TList e limit) n = Ok n' /\ Rep_list H e limit n' (removelast ns).
+Proof. exact list_pop_rep. Qed.
+
+Theorem C04_union_change : forall H (b : bool) os sel o x m, (0 <= sel)%Z -> (sel < Z.of_N (lenN os + (if b then 1 else 0))%N)%Z ->
+  union_opt b os (Z.to_nat sel) = Some o -> Repr H o x m ->
+  exists n', union_change H (TUnion b os) sel (Some m) = Ok n' /\ Repr H (TUnion b os) (VUnion (Z.to_nat sel) (Some x)) n'.
+Proof. intros H. exact (union_change_some H). Qed.
+
+Theorem C04_union_change_none : forall H os,
+  exists n', union_change H (TUnion true os) 0 None = Ok n' /\ Repr H (TUnion true os) (VUnion 0 None) n'.
+Proof. intros H. exact (union_change_none H). Qed.
+
+(* any valid history of assignments, appends and pops over VALUES ends in a representation of the implied
    value, which is well-formed — hence (C04_indistinguishable) has the fresh value's root and encoding *)
 Theorem C04_list_value_history : forall H src e limit, basic_size e = None -> limit < 2 ^ 64 -> forall os vs n,
   Repr H (TList e limit) (VSeq vs) n -> wf (TList e limit) (VSeq vs) = true -> vvalid_ops H e limit vs os ->
@@ -106,6 +127,10 @@ Print Assumptions C04_vector_set.
 Print Assumptions C04_list_set.
 Print Assumptions C04_list_append.
 Print Assumptions C04_list_value_history.
+Print Assumptions C04_list_pop.
+Print Assumptions C04_tree_pop.
+Print Assumptions C04_union_change.
+Print Assumptions C04_union_change_none.
 Print Assumptions C04_tree_append.
 Print Assumptions C04_root_of_representation.
 Print Assumptions C04_step.
